@@ -221,6 +221,7 @@ type segH struct {
 }
 
 type Env struct {
+	fieldLists     map[string][]string // ONE caller-side []string per requested doc-value field list, handed to every DocumentValueReader call that asks for that list
 	keybuf         []byte // ONE caller-side key buffer reused for every Contains / PostingsList key (the API borrows keys)
 	statObjs       map[int]segment.CollectionStats
 	tr             *Trace
@@ -258,7 +259,7 @@ func NewEnv(tr *Trace, sc *Scenario, workdir string) *Env {
 		pls: map[int]segment.PostingsList{}, its: map[int]segment.PostingsIterator{},
 		dvrs: map[int]segment.DocumentValueReader{}, bms: map[int]*roaring.Bitmap{},
 		objIDs: map[interface{}]int{}, nextObj: 1000000,
-		watchdog: 20 * time.Second * time.Duration(watchdogScale()), cov: map[string]int{}, itFlags: map[int]itFlags{}, docnums: map[int][][]int{}, dvrSeg: map[int]int{}, sawBlocked: new(bool), dits: map[int]segment.DictionaryIterator{}}
+		watchdog: 20 * time.Second * time.Duration(watchdogScale()), cov: map[string]int{}, itFlags: map[int]itFlags{}, docnums: map[int][][]int{}, dvrSeg: map[int]int{}, sawBlocked: new(bool), fieldLists: map[string][]string{}, dits: map[int]segment.DictionaryIterator{}}
 }
 
 func (e *Env) Close() {
@@ -1444,7 +1445,17 @@ func (e *Env) doDvOpen(op *Op) {
 	h := e.seg(op.Seg)
 	var r segment.DocumentValueReader
 	var err error
-	class := e.call(func() { r, err = h.seg.DocumentValueReader(append([]string{}, op.Fields...)) })
+	// a caller keeps one field list and opens a reader on every segment with it: the API only reads the list
+	arg := append([]string{}, op.Fields...)
+	if e.fieldLists != nil && len(op.Fields) > 0 {
+		key := strings.Join(op.Fields, "\x00")
+		if l, ok := e.fieldLists[key]; ok {
+			arg = l
+		} else {
+			e.fieldLists[key] = arg
+		}
+	}
+	class := e.call(func() { r, err = h.seg.DocumentValueReader(arg) })
 	res := resKind(class, err)
 	if res["kind"] == "ok" {
 		e.dvrs[op.R] = r
